@@ -1,7 +1,7 @@
 (* Property C06 - throttle: transparent within budget, clean cuts, restarts only with a full
    clip, paired calls, one event per incident. *)
 From Coq Require Import List ZArith Bool.
-From TR Require Import model.Throttle model.ThrottleSpec proofs.ThrottleProofs proofs.ThrottleC06.
+From TR Require Import model.Throttle model.ThrottleSpec proofs.ThrottleProofs proofs.ThrottleC06 model.ThrExt proofs.TieThrottle proofs.TieCorollaries.
 Import ListNotations.
 Open Scope Z_scope.
 
@@ -20,6 +20,20 @@ Theorem C06_all : forall cap q fi minlen faults us,
     conforming (thsteps cap q fi minlen faults us) = true ->
     S06 minlen (thsteps cap q fi minlen faults us) = true.
 Proof. exact S06_holds. Qed.
+
+(* The same statement about the Gallina translation of throttle/throttled_recorder.go as it is
+   in /repo now (coq/translated/ThrottledRecorder.v, regenerated on every run), and the tie it
+   rests on: on every call sequence the translated code and the hand-written model produce the
+   same calls on the wrapped recorder, the same events and the same return values. *)
+Theorem C06_all_source : forall cap q fi minlen faults us,
+    1 <= cap -> 1 <= q -> 1 <= fi -> monotone us = true ->
+    conforming (src_thsteps cap q fi minlen faults us) = true ->
+    S06 minlen (src_thsteps cap q fi minlen faults us) = true.
+Proof. exact S06_source. Qed.
+
+Theorem C06_source_tie : forall cap q fi minlen faults us,
+    src_thrun cap q fi minlen faults us = thrun (th_init cap q fi minlen faults) us.
+Proof. exact tie_throttle. Qed.
 
 (* non-vacuity: capacity 3, minlen 2, one token per 10 ns: a 5-frame trigger is cut after 3
    frames (one event), dropped silently, and restarted once 2 tokens are back *)
